@@ -134,6 +134,9 @@ class VipAdapter:
         return {'create': 'alloc', 'release': 'free', 'gc': 'garbage_collect', 'reset': 'initialize', 'read': 'list'}[op['op']]
 
 
+SITE_CHAINS = ['SITE-INGRESS', 'SITE-EGRESS', 'TM-SITE-DNAT', 'fw-local']
+
+
 class RuleAdapter:
     kind = 'rule'
 
@@ -156,11 +159,17 @@ class RuleAdapter:
         ext = '172.31.81.67'
         vips = ['192.168.0.%d' % rng.randint(2, 6) for _ in range(2)]
         self.rules = {}
+        # create_rule / unlink_rule take the chain as a free string: in 45% of the cases some rules live in site
+        # chains whose names iptables accepts but that are not of the TM_* word form (a dash in the name)
+        site = rng.random() < 0.45
+        self.offpattern = set()
         for _ in range(rng.randint(3, 9)):
             t = rng.choice(['dnat', 'dnat', 'snat', 'pass'])
             vip = rng.choice(vips)
+            site_chain = rng.choice(SITE_CHAINS) if site and rng.random() < 0.5 else None
             if t == 'dnat':
                 chain = rng.choice(['TM_PREROUTING_DNAT', 'TM_PREROUTING_VRING'])
+                chain = site_chain or chain
                 f = dict(proto=rng.choice(['tcp', 'udp']), src_ip=None, src_port=None,
                          dst_ip=rng.choice([ext, None]), dst_port=str(rng.choice([5000, 5001, 32768])),
                          new_ip=vip, new_port=str(rng.choice([80, 8000])))
@@ -169,6 +178,7 @@ class RuleAdapter:
                 rule = firewall.DNATRule(**f)
             elif t == 'snat':
                 chain = rng.choice(['TM_POSTROUTING_SNAT', 'TM_POSTROUTING_VRING'])
+                chain = site_chain or chain
                 f = dict(proto=rng.choice(['tcp', 'udp']), src_ip=vip, src_port=str(rng.choice([80, 8000])),
                          dst_ip=None, dst_port=None, new_ip=ext, new_port=str(rng.choice([5000, 5001])))
                 name = '%s:snat:%s:%s:%s:*:*-%s:%s' % (chain, f['proto'], f['src_ip'], f['src_port'],
@@ -176,10 +186,13 @@ class RuleAdapter:
                 rule = firewall.SNATRule(**f)
             else:
                 chain = 'TM_PASSTHROUGH'
+                chain = site_chain or chain
                 f = dict(src_ip='10.1.2.%d' % rng.randint(1, 3), dst_ip=vip)
                 name = '%s:passthrough:%s-%s' % (chain, f['src_ip'], f['dst_ip'])
                 rule = firewall.PassThroughRule(**f)
             self.rules[name] = (chain, rule)
+            if site_chain:
+                self.offpattern.add(name)
         self.names = sorted(self.rules)
         self.foreign = {}
         self.beats = 0
@@ -189,6 +202,11 @@ class RuleAdapter:
 
     def desc(self):
         return dict(rules=self.names, owners=len(self.owners))
+
+    def readable(self, name):
+        """get_rules documents that it skips 'files that are not rules' by its file-name grammar (chain = 2-32 word
+        characters): the read-back is judged on names of that grammar only."""
+        return name not in self.offpattern
 
     def heartbeat(self):
         self.beats += 1
@@ -723,6 +741,8 @@ class Engine(osproxy.Sink):
             if dead and kept:
                 self.flags.add('gc-mixed')
                 self.ctx.count('gc_mixed')
+            if self.kind == 'rule' and any(n in ad.offpattern for n in dead):
+                self.ctx.count('rule_gc_dead_owner_site_chain')
             exp.collect(pre_alive | {model.FILE})
         elif k == 'reset':
             if exc is not None:
@@ -739,6 +759,9 @@ class Engine(osproxy.Sink):
             if self.kind == 'vip':
                 want = sorted([n, o] for n, o in pre.items() if o != model.FILE)
                 got = sorted([a, b] for a, b in ret)
+            elif self.kind == 'rule':
+                want = sorted(n for n, o in pre.items() if o != model.FILE and ad.readable(n))
+                got = sorted(n for n in ret if ad.readable(n))
             else:
                 want = sorted(n for n, o in pre.items() if o != model.FILE)
                 got = sorted(ret)
